@@ -26,6 +26,9 @@ func reqAddr(host int) netip.Addr {
 	if host == 0 {
 		return vfAllNodes
 	}
+	if host >= len(vfHosts) {
+		return manyHost(host)
+	}
 	return vfHosts[host]
 }
 
@@ -157,6 +160,36 @@ func verifSched(t *testing.T, r *vfh.Rand, out *vfh.Out, op string) {
 			stop = at/2 + 1
 		}
 		runSched(t, out, op, r.Chance(1, 5), evs, stop|1)
+	}
+
+	// (3) hundreds of distinct solicitors between multicast triggers (whatever the scheduler keeps
+	// per destination must not disturb the multicast rate limit, and every solicitor is answered
+	// once): cycles of [multicast trigger; K solicitations from fresh hosts within w < 3 s;
+	// multicast trigger g after the first one; quiet gap]
+	n = vfh.N(12, 200)
+	for i := 0; i < n; i++ {
+		var evs []schedEvent
+		at := time.Duration(r.Range(int64(3*time.Second), int64(5*time.Second)))
+		host := 100
+		for cyc := 1 + r.Intn(3); cyc > 0; cyc-- {
+			evs = append(evs, schedEvent{at, 0})
+			k := 100 + r.Intn(200)
+			w := time.Duration(r.Range(int64(200*time.Millisecond), int64(2900*time.Millisecond)))
+			g := vfh.Pick(r, []time.Duration{w + time.Millisecond, w + 50*time.Millisecond, 2900 * time.Millisecond, 3*time.Second - 1, 3100 * time.Millisecond})
+			if g <= w {
+				g = w + time.Millisecond
+			}
+			for j := 0; j < k; j++ {
+				evs = append(evs, schedEvent{at + time.Duration(j+1)*w/time.Duration(k+1), host})
+				host++
+			}
+			evs = append(evs, schedEvent{at + g, 0})
+			if r.Bool() { // and one more right behind it
+				evs = append(evs, schedEvent{at + g + time.Duration(r.Range(1, int64(400*time.Millisecond))), 0})
+			}
+			at += g + time.Duration(r.Range(int64(3500*time.Millisecond), int64(8*time.Second)))
+		}
+		runSched(t, out, op, false, evs, (at+4*time.Second)|1)
 	}
 }
 
